@@ -174,16 +174,23 @@ def m_partition(pre, how, sep):
     return m_pieces(pre, [(0, idx), (idx, e), (e, len(t))])
 
 
-def m_replace(pre, old, new_obs, new_is_plain, count):
+def m_replace(pre, old, new_obs, new_is_plain, count, pieces=None):
     """old non-empty.  A plain-str replacement takes the settings of the first character of the
-    match; an AnsiString/AnsiStr replacement keeps its own, for every match."""
+    match; an AnsiString/AnsiStr replacement keeps its own, for every match.  pieces: for a plain str
+    that carries escape sequences, the replacement of each match as the constructor builds it from the
+    str and the settings of the first character of that match."""
     t = pre.text
     text = []
     cells = []
     pos = 0
-    for a, b in strref.replace_matches(t, old, count):
+    for j, (a, b) in enumerate(strref.replace_matches(t, old, count)):
         text.append(t[pos:a])
         cells.extend(pre.cells[pos:a])
+        if pieces is not None:
+            text.append(pieces[j].text)
+            cells.extend(pieces[j].cells)
+            pos = b
+            continue
         text.append(new_obs.text)
         if new_is_plain:
             cells.extend([pre.cells[a]] * len(new_obs.text))
